@@ -41,6 +41,9 @@ CHECKS = {
     "C15": dict(text="the single-quote wrapper `Shell` executed from MIR (core::fmt interpreted) on every valid UTF-8 string up to the bound: the output lexes under POSIX rules as exactly one word with the input as value; render_zsh/bash/fish/simple executed from MIR on candidate and completer lists whose user-originated strings are tracked atoms: no atom reaches a zsh/bash script unquoted, every line is a complete directive, every candidate / requested completer appears exactly once",
                 note="bounds: strings <=6 bytes quick / <=8 thorough; 0-2 candidates, 0-1 (thorough 0-2) completers; reference lexers in props/C15.py; sourcing in a real shell not attempted; three defects found and fixed (7d9d288, 7f18a65, 640d5de)",
                 tech=MIRSYM + " over symbolic bytes / tracked atoms", ref="DESIGN.md 4/C15"),
+    "C17": dict(text="the derive macro's expansion (part of the harness crate's MIR) and the documented hand written combinator equivalent are both executed from MIR: their Meta trees and Info are structurally equal (what help is rendered from), and on every symbolic argv within the bound run_subparser of both gives equal class, value and failure kind (one joint path, Z3)",
+                note="fixed corpus of 4 derive/manual pairs covering the derive rules of the property (definitions cannot be symbolic through a proc macro); bounds <=3 argv words quick / <=4 thorough; rendering cut",
+                tech=MIRSYM + ", relational query between two builders", ref="DESIGN.md 4/C17"),
     "C18": dict(text="std::env::var_os replaced by symbolic functions; differential against the reference semantics (line, then variable, then default/failure) for every argv shape and every environment state; reading an undeclared variable is a violation",
                 note="bounds <=2 argv words quick / <=3 thorough on the env-backed grammar; one known finding (see known_findings.json)",
                 tech=MIRSYM + ", differential oracle with symbolic environment", ref="DESIGN.md 4/C18"),
